@@ -753,6 +753,10 @@ def r1712(ctx):
 
 
 def run(ctx):
+    ctx.rule("R-17.13", "the in-flight record belongs to one scheduler object: no class-level mutable attribute of REPEX_state is mutated through self without being rebound per instance (shared with C06 R-6.4)", floor=3)
+    from . import c06 as _c06p
+    from .shared import RuleProxy as _RP17p
+    ctx.attempt(_c06p.r64, _RP17p(ctx, "R-17.13", " (a run restarted in the same process inherits the jobs the abandoned run had in flight: the finished run's restart.toml still lists a job, the same job is recorded twice)"))
     ctx.rule("R-17.12", "the step counter on disk equals the number of consumed results: nothing commits between the advance of the counter (loop) and the consumption of that step's result (treat_output)", floor=2)
     ctx.attempt(r1712, ctx)
     ctx.rule("R-17.4", "completed jobs leave the in-flight record (removal before the commit; selector representation agrees with all filling sites)", floor=4)
@@ -782,6 +786,7 @@ def run(ctx):
 
 
 VARIANTS = [
+    B("c17-in-flight-record-shared-by-all-schedulers", REPEX, "        self.locked = []\n", "", "R-17.13", control=True, also=[(REPEX, "    # holds counts current worker.\n", "    locked: list = []\n\n    # holds counts current worker.\n")], why="seeded C17_p"),
     B("c17-initiate-starts-every-worker-while-a-step-is-left", REPEX, "        if not self.cstep + (self.workers - self.toinitiate) < self.tsteps:\n            return False", "        if not self.cstep < self.tsteps:\n            return False", "R-17.5", control=True, why="pre-fix F17.2"),
     K("c17-keep-initiate-refusal-respelled", REPEX, "        if not self.cstep + (self.workers - self.toinitiate) < self.tsteps:\n            return False", "        started = self.workers - self.toinitiate\n        if self.cstep + started >= self.tsteps:\n            return False"),
     K("c17-keep-loop-verdict-in-a-local", REPEX, "        if self.printing() and self.cstep <= self.tsteps:\n            logger.info(f\"------- infinity {self.cstep:5.0f} START -------\")\n            logger.info(\"date: \" + datetime.now().strftime(DATE_FORMAT))\n\n        return self.cstep <= self.tsteps\n", "        within_steps = self.cstep <= self.tsteps\n        if self.printing() and within_steps:\n            logger.info(f\"------- infinity {self.cstep:5.0f} START -------\")\n            logger.info(\"date: \" + datetime.now().strftime(DATE_FORMAT))\n\n        return within_steps\n", why="refactoring r5repex"),
